@@ -426,7 +426,8 @@ pub fn add_sections(rep: &mut Report, prop: &str, thorough: bool, conformant_onl
     }
     {
         // element counts: n revoked entries (distinct serials of growing length; every 7th with reason + invalidity date), n IDP URIs
-        let counts: Vec<usize> = vec![0, 1, 2, 3, 16, 126, 127, 128, 129, 255, 256, 257, 1000, 3000];
+        let mut counts: Vec<usize> = (0..=40).collect();
+        counts.extend([63, 64, 65, 100, 126, 127, 128, 129, 255, 256, 257, 1000, 3000]);
         let mut cases: Vec<(usize, usize)> = counts.iter().map(|n| (0usize, *n)).collect();
         cases.extend(counts.iter().filter(|n| **n > 0 && **n <= 1000).map(|n| (1usize, *n)));
         let sec = Section::new("crl/sweep/element-counts", "CRLs with 0,1,2,3,16,126..129,255..257,1000,3000 revoked entries (entries differ in serial length, every 7th carries a reason and an invalidity date; entry i and the last entry are looked up by the independent checkers) and issuing distribution points with that many URIs");
